@@ -5,9 +5,82 @@ MODS = ['contracts.c_externs', 'contracts.c_utils', 'contracts.c_shell']
 FUNCS = ['yalafi.shell.checks.create_context',
          'yalafi.shell.checks.create_message',
          'yalafi.shell.checks.create_single_letter_matches.<locals>.f']
+def accept_list_bounded(seed):
+    """the start-up statements of shell.py that expand a trailing `||` of
+    --single-letters into the placeholder collections (module level, lifted
+    mechanically: from `lc = parameters.Parameters(...)` to the `if
+    cmdline.single_letters ...` statement, compiled as they are): for every
+    shipped language x multi-language on/off x a few option values the
+    alternatives of the resulting pattern are exactly the user's
+    alternatives plus every placeholder of the collections in force"""
+    import ast
+    import types
+    from pyvc import front
+    from pyvc import replay as _r
+    repo = front.repo()
+    mi = repo.modules['yalafi.shell.shell']
+    body = mi.tree.body
+
+    def is_lc(n):
+        return isinstance(n, ast.Assign) and \
+            ast.unparse(n.targets[0]) == 'lc'
+
+    def is_sl(n):
+        return isinstance(n, ast.If) and 'single_letters' in \
+            ast.unparse(n.test)
+    i0 = next(i for i, n in enumerate(body) if is_lc(n))
+    i1 = next(i for i, n in enumerate(body) if i > i0 and is_sl(n))
+    code = compile(ast.Module(body=body[i0:i1 + 1], type_ignores=[]),
+                   mi.path, 'exec')
+    parameters = _r.real_module('yalafi.parameters')
+    langs = sorted(parameters.Parameters().parser_lang_settings)
+    n, fails = 0, []
+    for lang in langs:
+        for ml in (False, True):
+            for sl in ('||', 'A|a||', 'i.\\,e.|e.\\,g.||', 'A|a', None):
+                n += 1
+                cmd = types.SimpleNamespace(language=lang, multi_language=ml,
+                                            single_letters=sl)
+                g = {'cmdline': cmd, 'parameters': parameters}
+                try:
+                    exec(code, g)
+                except Exception as e:      # noqa
+                    fails.append({'language': lang, 'multi_language': ml,
+                                  'single_letters': sl,
+                                  'why': 'exception %r' % (e,)})
+                    continue
+                got = cmd.single_letters
+                if sl is None or not sl.endswith('||'):
+                    ok = got == sl
+                    want = sl
+                else:
+                    lc = parameters.Parameters(lang).lang_context
+                    ph = (lc.math_repl_display + lc.math_repl_display_vowel +
+                          lc.math_repl_inline + lc.math_repl_inline_vowel)
+                    if ml:
+                        ph = ph + lc.lang_change_repl + \
+                            lc.lang_change_repl_vowel
+                    want = set(x for x in sl.split('|') if x) | set(ph)
+                    ok = set(x for x in got.split('|') if x) == want
+                    want = sorted(want)
+                if not ok:
+                    fails.append({'language': lang, 'multi_language': ml,
+                                  'single_letters': sl, 'result': got,
+                                  'expected_alternatives': want})
+    return {'name': 'accept-list-expansion-of-trailing-bars',
+            'bounded': True,
+            'bound': '%d shipped languages x multi-language on/off x 5 '
+                     'option values (the placeholder tables are finite and '
+                     'real; the option value is sampled)' % len(langs),
+            'evaluations': n, 'failures': fails[:3]}
+
+
+QUICK_BOUNDED = [accept_list_bounded]
+
 TRUSTED = ['assumed contract of re.Match: 0 <= start <= end <= len(string), group(0) == string[start:end]',
            'str.replace of one character by one character is a character-wise map (pyvc/builtins.py)']
-ASSUMPTIONS = ['which letters / placeholders the two regular expressions of checks.py select (and the accept-pattern filter) is '
+ASSUMPTIONS = ['the expansion of a trailing || of --single-letters (module-level start-up code of shell.py) is covered by a bounded stand-in only (real statements, real tables, sampled option values)',
+               'which letters / placeholders the two regular expressions of checks.py select (and the accept-pattern filter) is '
                'regex semantics and not decided by a contract']
 LEVEL_TEXT = ('Deductive proof of the offset/length/context arithmetic: create_message reports offset == start and length == '
     'len(match); create_context returns an excerpt in which text[offset\':offset\'+length\'] are exactly the flagged characters '
